@@ -220,8 +220,13 @@ func Flush() {
 	}
 	sort.Slice(res.Hashes, func(i, j int) bool { return res.Hashes[i] < res.Hashes[j] })
 	b, _ := json.Marshal(res)
+	// written under another name and renamed: a fuzz worker can be killed by its coordinator in the middle of
+	// this, and the driver must never find half a result file
 	name := fmt.Sprintf("result-%s-%d-%d.json", propID, Shard, os.Getpid())
-	_ = os.WriteFile(filepath.Join(outDir, name), b, 0o644)
+	tmp := filepath.Join(outDir, "."+name+".tmp")
+	if err := os.WriteFile(tmp, b, 0o644); err == nil {
+		_ = os.Rename(tmp, filepath.Join(outDir, name))
+	}
 }
 
 // Note adds a free-text note to the evidence (assumptions, generator remarks).
